@@ -116,7 +116,8 @@ def generate(rng, tier):
                 size *= l
             vals = [10 + 3 * i + (i * i) % 7 for i in range(size)]
             call = {"dims": [[d, l] for d, l, _ in dims], "vals": vals, "bw": bw,
-                    "boundary": kwval(rng, axes, WORDS), "fill": kwval(rng, axes, [0, 5, -1, 9])}
+                    "dtype": rng.choice(["float64", "float64", "int64", "float32"]),
+                    "boundary": kwval(rng, axes, WORDS), "fill": kwval(rng, axes, [0, 5, -1, 9, 0.5, -2.75])}
         cases.append({"ctor": ctor, "call": call})
     return cases
 
@@ -151,7 +152,8 @@ def run_impl(case):
     k = case.get("call")
     if k:
         shape = [l for _, l in k["dims"]]
-        da = xr.DataArray(np.array(k["vals"], dtype=float).reshape(shape), dims=[d for d, _ in k["dims"]])
+        da = xr.DataArray(np.array(k["vals"], dtype=k.get("dtype", "float64")).reshape(shape),
+                          dims=[d for d, _ in k["dims"]])
         bw = None if k["bw"] is None else {a: tuple(w) for a, w in k["bw"]}
         try:
             r = pad(da, g, boundary_width=bw, boundary=k["boundary"], fill_value=k["fill"])
